@@ -1,4 +1,5 @@
 import SdModel.Model.Derive
+import SdModel.Lemmas.Veq
 
 /-!
 Framework for the derive-level theorems (C01–C06, C13, C15).
@@ -19,13 +20,16 @@ structure FieldRel where
 
 structure FieldSpec (F : FieldSem) (R : FieldRel) : Prop where
   refl : ∀ a, R.wt a → R.equiv a a
-  same_refl : ∀ a, R.wt a → R.same a a
+  /-- `a.diff(&a)` is empty when `==` is reflexive on `a` (no `NaN` inside) -/
+  same_refl : ∀ a, R.wt a → veq a a = true → R.same a a
   none_iff : ∀ a b, R.wt a → R.wt b → (F.diff a b = none ↔ R.same a b)
   follow : ∀ a b f p, R.wt a → R.wt b → R.wt f → R.equiv a f → F.diff a b = some p →
     ∃ r, F.apply f p = .ok r ∧ R.wt r ∧ R.post f b r
   stay : ∀ a b f, R.wt a → R.wt b → R.wt f → R.equiv a f → F.diff a b = none → R.post f b f
   post_equiv : ∀ f b r, R.wt f → R.wt b → R.wt r → R.post f b r → R.equiv b r
   ref_eq : ∀ a b, F.diffRef a b = F.diff a b
+  /-- values that are `==` are equal in the sense of the strategy -/
+  veq_same : ∀ a b, R.wt a → R.wt b → veq a b = true → R.same a b
 
 structure TyRel where
   wt : Val → Prop
@@ -34,11 +38,13 @@ structure TyRel where
 
 structure TySpec (S : TySem) (R : TyRel) : Prop where
   refl : ∀ a, R.wt a → R.equiv a a
-  self : ∀ a, R.wt a → S.diff a a = []
+  self : ∀ a, R.wt a → veq a a = true → S.diff a a = []
   follow : ∀ a b f, R.wt a → R.wt b → R.wt f → R.equiv a f →
     ∃ r, S.apply f (S.diff a b) = .ok r ∧ R.wt r ∧ R.post f b r
   post_equiv : ∀ f b r, R.wt f → R.wt b → R.wt r → R.post f b r → R.equiv b r
   ref_eq : ∀ a b, S.diffRef a b = S.diff a b
+  /-- values that are `==` (under the derived `PartialEq`, which also looks at skipped fields) have an empty diff -/
+  veq_nodiff : ∀ a b, R.wt a → R.wt b → veq a b = true → S.diff a b = []
 
 /-! ### the three default methods are the same fold (C06) -/
 
@@ -151,21 +157,6 @@ theorem sdiffG_ref (fs : FS) (hs : ∀ x ∈ fs, FieldSpec x.2.1 x.2.2) (i : Nat
         simp only [fieldsOf, List.map_cons, sdiffG] at this ⊢
         rw [this, (hs (sk, F, R) List.mem_cons_self).ref_eq]
 
-theorem sdiffG_self (fs : FS) (hs : ∀ x ∈ fs, FieldSpec x.2.1 x.2.2) (i : Nat) (a : Vals) (ha : SWT fs a) :
-    sdiffG (·.diff) (fieldsOf fs) i a a = [] := by
-  induction fs generalizing i a with
-  | nil => simp [fieldsOf, sdiffG]
-  | cons x fs ih =>
-    obtain ⟨sk, F, R⟩ := x
-    cases a with
-    | nil => simp [fieldsOf, sdiffG]
-    | cons a0 as =>
-      have hF := hs (sk, F, R) List.mem_cons_self
-      have h0 : F.diff a0 a0 = none := (hF.none_iff a0 a0 ha.1 ha.1).mpr (hF.same_refl a0 ha.1)
-      have := ih (fun x hx => hs x (List.mem_cons_of_mem _ hx)) (i + 1) as ha.2
-      simp only [fieldsOf, List.map_cons, sdiffG, h0] at this ⊢
-      simp [this]
-
 theorem struct_follow_vals (fs : FS) (hs : ∀ x ∈ fs, FieldSpec x.2.1 x.2.2) :
     ∀ (i : Nat) (a b f : Vals), SWT fs a → SWT fs b → SWT fs f → SEquiv fs a f →
       ∃ r, sapplyG (fieldsOf fs) i f (sdiffG (·.diff) (fieldsOf fs) i a b) = .ok r ∧ SWT fs r ∧ SPost fs f b r := by
@@ -252,15 +243,40 @@ theorem spost_sequiv (fs : FS) (hs : ∀ x ∈ fs, FieldSpec x.2.1 x.2.2) (x y z
         simp only [hsk] at this
         exact Or.inr ((hs (sk, F, R) List.mem_cons_self).post_equiv f0 b0 r0 hx.1 hy.1 hz.1 this)
 
+theorem sdiffG_veqs (fs : FS) (hs : ∀ x ∈ fs, FieldSpec x.2.1 x.2.2) (i : Nat) (a b : Vals)
+    (ha : SWT fs a) (hb : SWT fs b) (he : veqs a b = true) : sdiffG (·.diff) (fieldsOf fs) i a b = [] := by
+  induction fs generalizing i a b with
+  | nil => simp [fieldsOf, sdiffG]
+  | cons x fs ih =>
+    obtain ⟨sk, F, R⟩ := x
+    cases a with
+    | nil => simp [fieldsOf, sdiffG]
+    | cons a0 as =>
+      cases b with
+      | nil => simp [fieldsOf, sdiffG]
+      | cons b0 bs =>
+        simp only [veqs, Bool.and_eq_true] at he
+        have hF := hs (sk, F, R) List.mem_cons_self
+        have h0 : F.diff a0 b0 = none := (hF.none_iff a0 b0 ha.1 hb.1).mpr (hF.veq_same a0 b0 ha.1 hb.1 he.1)
+        have := ih (fun x hx => hs x (List.mem_cons_of_mem _ hx)) (i + 1) as bs ha.2 hb.2 he.2
+        simp only [fieldsOf, List.map_cons, sdiffG, h0] at this ⊢
+        simp [this]
+
 theorem struct_spec (fs : FS) (hs : ∀ x ∈ fs, FieldSpec x.2.1 x.2.2) :
     TySpec (structSem (fieldsOf fs)) (structRel fs) where
+  veq_nodiff := by
+    rintro a b ⟨x, rfl, hx⟩ ⟨y, rfl, hy⟩ he
+    simp only [veq] at he
+    simp only [structSem]
+    exact sdiffG_veqs fs hs 0 x y hx hy he
   refl := by
     rintro a ⟨vs, rfl, hw⟩
     exact ⟨vs, vs, rfl, rfl, sequiv_refl fs hs vs hw⟩
   self := by
-    rintro a ⟨vs, rfl, hw⟩
+    rintro a ⟨vs, rfl, hw⟩ hv
+    simp only [veq] at hv
     simp only [structSem]
-    exact sdiffG_self fs hs 0 vs hw
+    exact sdiffG_veqs fs hs 0 vs vs hw hw hv
   follow := by
     rintro a b f ⟨x, rfl, hx⟩ ⟨y, rfl, hy⟩ ⟨z, rfl, hz⟩ ⟨x', z', e1, e2, he⟩
     cases e1; cases e2
